@@ -302,7 +302,12 @@ type depthView struct {
 
 func (m *Model) view(excl map[*Msg]bool) depthView {
 	var v depthView
+	all := make([]*Msg, 0, len(m.Msgs)+len(m.newAnon))
 	for _, x := range m.Msgs {
+		all = append(all, x)
+	}
+	all = append(all, m.newAnon...) // stored, id not yet learned
+	for _, x := range all {
 		if excl[x] {
 			continue
 		}
@@ -1139,9 +1144,20 @@ func (m *Model) CompareListing(now time.Time, opDesc string, items []queue.Envel
 		vs = append(vs, viol("C02.appeared", "C02,C01", "after %s: message %s present in state %s but %s", opDesc, it.ID, it.State, why))
 	}
 	for _, x := range anon {
-		if x != nil {
-			vs = append(vs, viol("C02.lost.enqueue", "C02,C01,C12", "after %s: an accepted message (route %s target %s payload %x) is not in the queue", opDesc, x.Route, x.Target, trunc(x.Payload)))
+		if x == nil {
+			continue
 		}
+		if evictMax > 0 && x.State == queue.StateQueued {
+			// stored, then evicted by drop_oldest in favour of a later message of
+			// the same request (fan-out on a nearly full queue)
+			evictMax--
+			if evictMin > 0 {
+				evictMin--
+			}
+			m.Stats.EvictionsSeen++
+			continue
+		}
+		vs = append(vs, viol("C02.lost.enqueue", "C02,C01,C12", "after %s: an accepted message (route %s target %s payload %x) is not in the queue", opDesc, x.Route, x.Target, trunc(x.Payload)))
 	}
 
 	// vanished messages must be explained by eviction or retention
